@@ -290,6 +290,11 @@ def r08_5_shared(repo: Repo, rep: Report):
     r20_8_no_aliasing_assignment(repo, rep)
     # a copy of the storage (branch, next transaction, rollback) keeps every field, including the `symbolic` flag
     r20_1_fork_copies(repo, rep)
+    # a location is recognised through the registry of computed hashes: every keccak a path computes must be registered
+    # (shared with C01 R01.4)
+    from hsa.rules.c01 import r01_4_modelling_obligations
+
+    r01_4_modelling_obligations(repo, rep)
 
 
 RULES = [r08_5_shared, r08_1_precomputed_tables, r08_2_decode_siblings, r08_3_load_store_agreement, r08_4_transient]
